@@ -756,9 +756,14 @@ func smtName(n string) string {
 	return "|" + strings.NewReplacer("|", "!", "\\", "/").Replace(n) + "|"
 }
 
+var realFloatMode bool
+
 func smtSort(s string) string {
 	switch s {
 	case SF64:
+		if realFloatMode {
+			return "Real"
+		}
 		return "(_ FloatingPoint 11 53)"
 	}
 	if strings.HasPrefix(s, "(Array ") {
@@ -776,6 +781,7 @@ func smtInt(n string) string {
 }
 
 type printer struct {
+	real  bool // float64 printed as Real (exact arithmetic, no NaN/Inf)
 	names map[int]string
 	lits  map[string]string // string literal -> const name
 	order []string
@@ -819,6 +825,24 @@ func (pr *printer) raw(t *Term) string {
 		return smtInt(t.Name)
 	case "f64":
 		bits, _ := strconv.ParseUint(t.Name, 10, 64)
+		if pr.real {
+			f := math.Float64frombits(bits)
+			r := new(big.Rat)
+			if r.SetFloat64(f) == nil {
+				return "0.0"
+			}
+			num, den := r.Num(), r.Denom()
+			sgn := ""
+			if num.Sign() < 0 {
+				num = new(big.Int).Neg(num)
+				sgn = "-"
+			}
+			e := "(/ " + num.String() + ".0 " + den.String() + ".0)"
+			if sgn != "" {
+				e = "(- " + e + ")"
+			}
+			return e
+		}
 		return fmt.Sprintf("(fp #b%01b #b%011b #b%052b)", bits>>63, (bits>>52)&0x7ff, bits&((1<<52)-1))
 	case "const", "bound":
 		return smtName(t.Name)
@@ -839,29 +863,89 @@ func (pr *printer) raw(t *Term) string {
 		sb.WriteString(") " + pr.expr(t.Args[0]) + ")")
 		return sb.String()
 	case "i2f":
+		if pr.real {
+			return "(to_real " + pr.expr(t.Args[0]) + ")"
+		}
 		return "((_ to_fp 11 53) RNE (to_real " + pr.expr(t.Args[0]) + "))"
 	case "f2i":
 		return "(f2i " + pr.expr(t.Args[0]) + ")"
 	case "fp.add", "fp.sub", "fp.mul", "fp.div", "fp.sqrt":
+		if pr.real {
+			op := map[string]string{"fp.add": "+", "fp.sub": "-", "fp.mul": "*", "fp.div": "/", "fp.sqrt": "realsqrt"}[t.Op]
+			return "(" + op + args() + ")"
+		}
 		return "(" + t.Op + " RNE" + args() + ")"
 	case "fp.roundToIntegral":
+		if pr.real {
+			x := pr.expr(t.Args[0])
+			switch t.Name {
+			case "RTN":
+				return "(to_real (to_int " + x + "))"
+			case "RTP":
+				return "(- (to_real (to_int (- " + x + "))))"
+			default:
+				return "(to_real (to_int (+ " + x + " 0.5)))"
+			}
+		}
 		return "(fp.roundToIntegral " + t.Name + args() + ")"
+	case "fp.lt", "fp.leq", "fp.eq", "fp.neg", "fp.abs", "fp.isNaN", "fp.isInfinite", "fp.isZero", "fp.isNegative", "fp.isPositive":
+		if pr.real {
+			x := pr.expr(t.Args[0])
+			switch t.Op {
+			case "fp.lt":
+				return "(< " + x + " " + pr.expr(t.Args[1]) + ")"
+			case "fp.leq":
+				return "(<= " + x + " " + pr.expr(t.Args[1]) + ")"
+			case "fp.eq":
+				return "(= " + x + " " + pr.expr(t.Args[1]) + ")"
+			case "fp.neg":
+				return "(- " + x + ")"
+			case "fp.abs":
+				return "(ite (< " + x + " 0.0) (- " + x + ") " + x + ")"
+			case "fp.isNaN", "fp.isInfinite":
+				return "false"
+			case "fp.isZero":
+				return "(= " + x + " 0.0)"
+			case "fp.isNegative":
+				return "(< " + x + " 0.0)"
+			case "fp.isPositive":
+				return "(>= " + x + " 0.0)"
+			}
+		}
+		return "(" + t.Op + args() + ")"
 	case "nan":
+		if pr.real {
+			return "real!nan"
+		}
 		return "(_ NaN 11 53)"
 	case "pinf":
+		if pr.real {
+			return "real!pinf"
+		}
 		return "(_ +oo 11 53)"
 	case "ninf":
+		if pr.real {
+			return "real!ninf"
+		}
 		return "(_ -oo 11 53)"
 	case "new", "glob", "fnp", "fld", "elt", "obj":
 		return "(" + t.Op + args() + ")"
+	}
+	if t.Op == "goquo" || t.Op == "gorem" {
+		if _, lit := t.Args[1].IsInt(); !lit {
+			// symbolic divisor: uninterpreted (keeps the VC linear); instances for known divisors are added as facts
+			return "(" + t.Op + "_u" + args() + ")"
+		}
 	}
 	return "(" + t.Op + args() + ")"
 }
 
 // Script renders a complete SMT-LIB2 query: facts asserted, goal negated is the caller's job
 // (pass the already negated goal among asserts).
-func Script(asserts []*Term, getValues []*Term) string {
-	pr := &printer{names: map[int]string{}, lits: map[string]string{}}
+func Script(asserts []*Term, getValues []*Term, real bool) string {
+	realFloatMode = real
+	defer func() { realFloatMode = false }()
+	pr := &printer{names: map[int]string{}, lits: map[string]string{}, real: real}
 	// collect reachable nodes, refcounts
 	ref := map[int]int{}
 	var order []*Term
@@ -908,9 +992,17 @@ func Script(asserts []*Term, getValues []*Term) string {
 	if usesQuo {
 		sb.WriteString("(define-fun goquo ((a Int) (b Int)) Int (ite (> b 0) (ite (>= a 0) (div a b) (- (div (- a) b))) (ite (>= a 0) (- (div a (- b))) (div (- a) (- b)))))\n")
 		sb.WriteString("(define-fun gorem ((a Int) (b Int)) Int (- a (* b (goquo a b))))\n")
+		sb.WriteString("(declare-fun goquo_u (Int Int) Int)\n(declare-fun gorem_u (Int Int) Int)\n")
 	}
 	if usesF2I {
-		sb.WriteString("(declare-fun f2i ((_ FloatingPoint 11 53)) Int)\n")
+		if real {
+			sb.WriteString("(define-fun f2i ((x Real)) Int (ite (< x 0.0) (- (to_int (- x))) (to_int x)))\n")
+		} else {
+			sb.WriteString("(declare-fun f2i ((_ FloatingPoint 11 53)) Int)\n")
+		}
+	}
+	if real {
+		sb.WriteString("(declare-fun real!nan () Real)\n(declare-fun real!pinf () Real)\n(declare-fun real!ninf () Real)\n(declare-fun realsqrt (Real) Real)\n")
 	}
 	// builtin string functions
 	builtin := map[string]*Decl{
